@@ -606,6 +606,18 @@ func checkCut(u *universe, h []entry, k int, secondGen bool) *cutResult {
 		}
 	}
 	res.postDiffs = len(postF)
+	// a command that answers differently on the restored server is the hardest client-visible divergence: always
+	// its own finding (the table differences of the same cut name the cause)
+	if len(tableF) > 0 || len(queryF) > 0 {
+		seenPR := map[string]bool{}
+		for _, f := range postF {
+			if strings.HasPrefix(f.sig, "snap:post-result:") && !seenPR[f.sig] {
+				seenPR[f.sig] = true
+				f.desc += " || differences at the cut: " + sigList(append(append([]finding{}, tableF...), queryF...))
+				res.findings = append(res.findings, f)
+			}
+		}
+	}
 	if len(tableF) == 0 && len(queryF) == 0 {
 		// equal at the cut yet different afterwards: state outside the tables was lost
 		res.findings = append(res.findings, postF...)
